@@ -16,7 +16,8 @@ from harness.core import Check
 from harness.concretize import PROFILES, ID_BASE
 
 PID = 'C06'
-VARIANTS_QUICK = [{}, {'natural': True}, {'prefix': True}, {'presorted': True}, {'buffersize': 1}, {'buffersize': 2, 'cache': False}]
+VARIANTS_QUICK = [{}, {'natural': True}, {'prefix': True}, {'presorted': True}, {'buffersize': 1}, {'buffersize': 2, 'cache': False},
+                  {'indexkey': True}, {'indexkey': True, 'sharednames': True}, {'inputs': 'revsorted'}, {'inputs': 'revsorted', 'buffersize': 2}]
 ACTIONS = ['PickLeft', 'PickRight', 'Less', 'Greater', 'Equal', 'FlushLeft', 'FlushRight']
 
 
